@@ -7,7 +7,8 @@ rm -rf $SC && cp -r /repo $SC && (cd $SC && git apply /verif/seeded/$NAME/patch.
 for P in "$@"; do
   VERIF_DIR_OUT=1 VERIF_REPO=$SC /verif/bin/vcgo check $P > /tmp/seeded-$NAME-$P.log 2>&1
   rc=$?
-  grep -h "^replay:\|^relaxed candidate\|^replayed against\|^candidate input" /verif/out/$P/replay/*.txt 2>/dev/null | cut -c1-160 | sort | uniq -c | sort -rn > /tmp/seeded-$NAME-$P.replay
+  grep -h "^replay:\|^relaxed candidate\|^replayed against\|^candidate input" /verif/out/$P@seeded-$NAME/replay/*.txt 2>/dev/null | cut -c1-160 | sort | uniq -c | sort -rn > /tmp/seeded-$NAME-$P.replay
+  rm -rf /verif/out/$P@seeded-$NAME /verif/out/replaytmp@seeded-$NAME
   echo "$NAME $P exit=$rc $(grep -c VIOLATION /tmp/seeded-$NAME-$P.log) violations: $(grep VIOLATION /tmp/seeded-$NAME-$P.log | head -3 | sed 's/.*obligation=//' | cut -c1-150 | tr '\n' ';')"
 done
 rm -rf $SC
